@@ -499,10 +499,42 @@ func c09c(c *Ctx, r *Report) {
 		"each successor set is looked up among the existing states; it becomes a new state only if absent; the transition stores the resulting state index", bad)
 	// InsertItemClosure: index = length before append
 	if g := c.need(r, clause, "LR", "LR0", "InsertItemClosure"); g != nil {
-		src := strings.Join(strings.Fields(printNode(c.Fset, g.Decl.Body)), " ")
-		i1 := strings.Index(src, "IC.Index = len(lr0.LR0Closure)")
-		i2 := strings.Index(src, "lr0.LR0Closure = append(lr0.LR0Closure, IC)")
-		r.Check(i1 >= 0 && i2 > i1, clause, "R3 LOCKSTEP", g.Name+"/index-is-position", c.pos(g.Decl.Pos()), "a new state's Index is the list length before it is appended: state index = position", "a new state's Index is not the position at which it is appended")
+		ginfo := g.Pkg.TypesInfo
+		ps := paramObjs(ginfo, g.Decl)
+		why := "no `<state>.Index = len(<list>)` directly followed by `<list> = append(<list>, <state>)`"
+		if len(ps) >= 1 {
+			ast.Inspect(g.Decl.Body, func(n ast.Node) bool {
+				blk, ok := n.(*ast.BlockStmt)
+				if !ok {
+					return true
+				}
+				for i := 0; i+1 < len(blk.List); i++ {
+					a1, ok1 := blk.List[i].(*ast.AssignStmt)
+					a2, ok2 := blk.List[i+1].(*ast.AssignStmt)
+					if !ok1 || !ok2 || len(a1.Lhs) != 1 || len(a2.Lhs) != 1 || len(a1.Rhs) != 1 || len(a2.Rhs) != 1 {
+						continue
+					}
+					// a1: P.Index = len(L)
+					se, ok := unparen(a1.Lhs[0]).(*ast.SelectorExpr)
+					if !ok || !fieldNamed(ginfo, se, "Index") || identObj(ginfo, se.X) != ps[0] {
+						continue
+					}
+					lc, ok := unparen(a1.Rhs[0]).(*ast.CallExpr)
+					if !ok || builtinName(ginfo, lc) != "len" || len(lc.Args) != 1 || !fieldNamed(ginfo, lc.Args[0], "LR0Closure") {
+						continue
+					}
+					list := exprString(lc.Args[0])
+					// a2: L = append(L, P)
+					ac, ok := unparen(a2.Rhs[0]).(*ast.CallExpr)
+					if !ok || builtinName(ginfo, ac) != "append" || len(ac.Args) != 2 || exprString(a2.Lhs[0]) != list || exprString(ac.Args[0]) != list || identObj(ginfo, ac.Args[1]) != ps[0] {
+						continue
+					}
+					why = ""
+				}
+				return true
+			})
+		}
+		r.Check(why == "", clause, "R3 LOCKSTEP", g.Name+"/index-is-position", c.pos(g.Decl.Pos()), "a new state's Index is the list length right before it is appended: state index = position", "a new state's Index is not the position at which it is appended: "+why)
 	}
 	// worklist
 	if g := c.need(r, clause, "Grammar", "Grammar", "ComputeAllGoto"); g != nil {
